@@ -1,5 +1,21 @@
 SOURCE_COMMITS = []
 CHECKS = [
+ {"id": "C05", "ref": "DESIGN.md §4 C05",
+  "technique": "differential runtime observation of the real classifier under meaning-preserving re-layouts built on an independent lexer",
+  "text": "Roles of all code tokens compared between every corpus file (and generated designs) and its resize/split/join/comment/case/tabs variants; any role change or rejection of a variant is a violation. Exploration over a finite, seeded universe of variants.",
+  "note": "The independent lexer decides where whitespace separates tokens; variants whose code-token values differ from the input's are discarded as unsound, never judged."},
+ {"id": "C06", "ref": "DESIGN.md §4 C06",
+  "technique": "state invariant asserted around every rule.analyze (token identity/class/attributes, token index, rule class attributes) plus differential reports (repeat / shuffled order / random disabled subset) on fresh objects",
+  "text": "Every analysis inside real all-phases checks is observed for writes to the file model; reports are compared across repetition, analysis order and disabled subsets. Exploration: held on the executions produced.",
+  "note": "Token state = identity, class and instance __dict__; module-level state is C15's monitor."},
+ {"id": "C13", "ref": "DESIGN.md §4 C13",
+  "technique": "reference model of phase gating checked against observed violations / fix-wrapper entries of the real rule_list (in-process) and the real CLI (-ap, -fp, skip_phase)",
+  "text": "gated == prefix of all-phases report up to the first phase with an error-type violation; skipped phases neither reported nor fixed; --fix_phase N applies no rule of a later phase and yields the text the full run had when phase N ended; includes phase re-assignment and Warning demotion.",
+  "note": "A rule's phase/severity are its attributes after configuration."},
+ {"id": "C20", "ref": "DESIGN.md §4 C20",
+  "technique": "differential runtime observation of rule_list.fix(dFixOnly) with an update() monitor recording which (rule, line) violations were repaired; CLI sample for the empty selection",
+  "text": "all-rules-all == plain fix; empty selection fixes nothing and leaves the file untouched; for a line-local rule and a random subset of its reported lines exactly those lines change and no unlisted violation reaches update().",
+  "note": "Line-local = documented whitespace/indent/alignment/case (C07 monitors that property of such fixes)."},
  {"id": "C04", "ref": "DESIGN.md §4 C04",
   "technique": "runtime post-condition monitor on tokens.create / vhdlFile emit (bounded-exhaustive + seeded) and stat+audit-hook observation of the real CLI",
   "text": "Held on every string up to the length bound over the delimiter alphabet (exhaustive), seeded random strings, every corpus line; every accepted corpus file and sampled re-layouts/encodings emit exactly what was read with all tokens classified; observed CLI runs on clean files perform no file-system mutation. Exploration: only the executions produced are decided.",
